@@ -722,31 +722,20 @@ Proof.
 Qed.
 
 (* ---- ConvertZToMinMaxAltitudekey(f, z, out, E, O) / ConvertAltitudekeyToMinMaxZ(k, kz, out, E, O); models AltKeyCore.z2key /
-        key2z (C12). The zoom arguments are not validated as such: the functions only ask whether the index exists at that zoom
-        (1 << zoom), so zooms 36..62 are served (finding class altkey_zoom_unchecked; beyond 63 the int64 shifts wrap, and the most
-        negative zoom panics with "negative shift amount": there the unbounded model is not the code). Proved: a negative input
-        zoom is always refused. ---- *)
+        key2z (C12). Since fix 9dab435 both begin with shape.CheckZoom on the source and the target zoom: a zoom outside 0..35
+        (MinInt64 and MaxInt64 included) is an error before any shift is computed — it used to be served for 36..62 and to panic with
+        "negative shift amount" for MinInt64. The base exponent E and the offset O are not zoom arguments in the sense of the
+        property; C15 keeps E within 0..35 (what the code does outside belongs to C12, class int64_overflow). ---- *)
 Definition invalid_altkey (z out : Z) : bool := zoom_bad z || zoom_bad out.
-Lemma ashift_1_neg z : z < 0 -> ashift 1 z = 0.
-Proof.
-  intros H. rewrite ashift_neg by lia. apply Z.div_small. split; [lia|]. apply Z.pow_gt_1; lia.
-Qed.
-Theorem z2key_negative_zoom f z out E O : z < 0 -> z2key f z out E O = Err.
-Proof.
-  intros H. unfold z2key, index_exists. rewrite (ashift_1_neg z H). cbn [Z.opp Z.sub].
-  destruct (0 - 1 <? f) eqn:A; [reflexivity|]. destruct (f <? 0) eqn:B; [reflexivity|]. exfalso.
-  apply Z.ltb_ge in A, B. lia.
-Qed.
-Theorem key2z_negative_zoom k kz out E O : kz < 0 -> key2z k kz out E O = Err.
-Proof.
-  intros H. unfold key2z. rewrite (ashift_1_neg kz H).
-  destruct (0 - 1 <? k) eqn:A; [reflexivity|]. destruct (k <? 0) eqn:B; [reflexivity|]. exfalso.
-  apply Z.ltb_ge in A, B. lia.
-Qed.
-Theorem altkey_zoom_unchecked_refuted :
-  invalid_altkey 36 3 = true /\ z2key 0 36 3 25 0 = Ok (0, 0) /\
-  invalid_altkey 3 36 = true /\ key2z 0 3 36 25 0 = Ok (0, 8589934591).
-Proof. repeat split; vm_compute; reflexivity. Qed.
+Theorem z2key_rejects f z out E O : invalid_altkey z out = true -> z2key f z out E O = Err.
+Proof. unfold invalid_altkey, zoom_bad, check_zoom, z2key, AltKeyCore.zoom_ok. now intros ->. Qed.
+Theorem key2z_rejects k kz out E O : invalid_altkey kz out = true -> key2z k kz out E O = Err.
+Proof. unfold invalid_altkey, zoom_bad, check_zoom, key2z, AltKeyCore.zoom_ok. cbv zeta. now intros ->. Qed.
+(* historical (before 9dab435 the unvalidated code answered these two calls with (0,0) and (0,8589934591), finding class
+   altkey_zoom_unchecked): now refused *)
+Example altkey_zoom_36_now_refused : z2key 0 36 3 25 0 = Err /\ key2z 0 3 36 25 0 = Err /\
+  z2key 0 (- 2 ^ 63) 3 25 0 = Err /\ key2z 0 3 (2 ^ 63 - 1) 25 0 = Err.
+Proof. repeat split; reflexivity. Qed.
 
 (* ---- FitClearanceAroundExtendedSpatialID(id, clearance); model Corridor.fit_model (C14: control flow; distances are oracles).
         Documented: clearance >= 0; the ID has the form hZoom/x/y/vZoom/z. Whatever the clearance, 0 included, the ID is examined
@@ -765,9 +754,10 @@ Proof. apply fit_zero_clearance_valid. Qed.
 (* ---- GetExtendedSpatialIdsWithinRadiusOfLine(start, end, radius, hZoom, vZoom, skip); model Corridor.corridor over the line model
         (C06) and the fit model. Documented: non-nil points, zooms 0..35, radius >= 0. ---- *)
 Definition invalid_corridor (has_nil : bool) (h v : Z) (r : float) : bool := invalid_points has_nil h v || (r <? 0)%float.
-Theorem corridor_rejects ord_n ord_u ord_q m_tan m_cos m_log fuel dx dy measure has_nil s e h v r skip :
+Theorem corridor_rejects ord_n ord_u ord_q m_tan m_cos m_log fuel dx dy (St : Type) (st0 : St)
+    (measure : St -> string -> result (bool * St)) has_nil s e h v r skip :
   invalid_corridor has_nil h v r = true ->
-  corridor ord_n ord_u ord_q (fit_of_model fuel dx dy r) measure (line_api m_tan m_cos m_log has_nil s e h v) skip = Err.
+  corridor ord_n ord_u ord_q (fit_of_model fuel dx dy r) St st0 measure (line_api m_tan m_cos m_log has_nil s e h v) skip = Err.
 Proof.
   unfold invalid_corridor. rewrite orb_true_iff. intros [H|H].
   - now rewrite (line_rejects m_tan m_cos m_log has_nil s e h v H).
@@ -784,3 +774,27 @@ Theorem voxel_empty_only_if_short s : voxel_id s = [] -> invalid_voxel s = true.
 Proof. unfold invalid_voxel. rewrite Nat.ltb_lt. apply voxel_id_empty. Qed.
 Theorem voxel_accepts s i : parse_eid s = Some i -> voxel_id s = [ex i; ey i; ef i].
 Proof. apply voxel_id_spec. Qed.
+
+(* ===================================================================================================================== *)
+(* 7. the latitude clause on the INPUT side (reusing C01's SetLatProofs: |lat| - |cut lat| lies in [-2^-46, 1e-10 + 2^-46])     *)
+(* ===================================================================================================================== *)
+From Coq Require Import Reals Lra.
+From Flocq Require Import Core.
+From SID Require Import PtBridge SetLatProofs.
+Open Scope R_scope.
+(* an accepted point stores a latitude within the band of the input (partial: the documented band [0, 1e-10) is refuted, D20) *)
+Theorem new_point_lat_band_partial lon lat alt : ffin lat = true -> Rabs (fval lat) <= 90 -> invalid_new_point lon lat = false ->
+  - bpow radix2 (-46) <= Rabs (fval lat) - Rabs (fval (F64.plat (fst (new_point lon lat alt)))) <= 1 / 10 ^ 10 + bpow radix2 (-46).
+Proof. intros F H I. rewrite (new_point_stores lon lat alt I). cbn [F64.plat]. now apply setlat_cut_bounds. Qed.
+(* a latitude beyond the limit by more than the cut (1e-10) and the float dust (2^-46) is refused; values in between are accepted and
+   stored as (about) the limit: "beyond the limit" is read after the documented cut *)
+Theorem new_point_rejects_lat_beyond lon lat alt : ffin lat = true -> Rabs (fval lat) <= 90 ->
+  fval c_latmax + 1 / 10 ^ 10 + bpow radix2 (-46) < Rabs (fval lat) -> snd (new_point lon lat alt) = true.
+Proof.
+  intros F H B. rewrite new_point_flag. unfold invalid_new_point. apply orb_true_iff. right.
+  destruct (setlat_val lat F H) as [_ Fs]. pose proof (setlat_cut_bounds lat F H) as [_ U].
+  destruct (abs_val (setlat_trunc lat)) as [Va Fa]. rewrite Fs in Fa.
+  assert (Fc : ffin c_latmax = true) by (vm_compute; reflexivity).
+  rewrite (ltb_val _ _ Fc Fa), Va. apply Rlt_bool_true. lra.
+Qed.
+Close Scope R_scope.
